@@ -1023,13 +1023,37 @@ class Emitter:
             else:
                 body += self.st(st, 3)
         hoisted = ''.join('  ' + h + '\n' for h in self.hoisting)
+        self.hoisting_names = [re.sub(r'\[.*', '', h.rstrip(';').strip()).split()[-1].lstrip('*') for h in self.hoisting]
         self.hoisting = None
         key = (self.cur_name, 'dispatch')
         ann = self.loop_contracts.get(key, '')
         if ann: self.used_loop_contracts.add(key)
-        ann = ''.join('  ' + l.strip() + '\n' for l in ann.strip().splitlines()) if ann else ''
+        # '@anchor cond :: var :: expr' lines: a checked re-statement of an invariant equality at the top of the loop body,
+        # `if (cond) { assert(var == expr); var = expr; }` - a no-op whenever the assertion holds (and the assertion is an
+        # obligation); it hands symex the constant pointer the invariant only states as an assumption
+        anchors = ''
+        keep = []
+        for l in (ann.strip().splitlines() if ann else []):
+            if l.strip().startswith('@anchor'):
+                c, v, e = [x.strip() for x in l.strip()[len('@anchor'):].split('::')]
+                anchors += f'    if ({c}) {{ __CPROVER_assert({v} == ({e}), "loop invariant anchor {v}"); {v} = ({e}); }}\n'
+            else: keep.append(l)
+        ann = ''.join('  ' + l.strip() + '\n' for l in keep) if keep else ''
         end = '    return;\n' if self.cur_ret.strip() == 'void' else '    __CPROVER_assert(0, "control reaches the end of a non-void function"); __CPROVER_assume(0);\n'
-        out = '{\n' + hoisted + '  int y_pc = 0;\n  for (;;)\n' + ann + '  {\n    switch (y_pc)\n    {\n    case 0: ;\n' + body + '    }\n' + end + '    y_dispatch_next: ;\n  }\n}\n'
+        if getattr(self, 'loop_modes', {}).get(key) == 'own':
+            # loop contract applied by this tool instead of dfcc (see ystubgen.gen_ownloop): base check, havoc of the hoisted
+            # locals and of EVERY target of the function's own assigns clause, assume invariant, one body pass, step check.
+            # dfcc still enforces the function's assigns clause on every write of the body, so havocking all of it is a sound frame.
+            names = []
+            for h in self.hoisting_names: names.append(h)
+            pnames = [re.split(r'[ *]', q.replace('[', ' ['))[-1] for q in self.sigs[self.cur_name][1]] if self.cur_name in getattr(self, 'sigs', {}) else []
+            self.own_loops = getattr(self, 'own_loops', {})
+            tag = f'{self.cur_name}__dispatch'
+            self.own_loops[tag] = {'fn': self.cur_name, 'hoisted': names + ['y_pc'], 'clauses': '\n'.join(keep), 'body': body, 'params': pnames}
+            out = '{\n' + hoisted + f'  int y_pc = 0;\n  Y_OWNLOOP_HEAD_{tag}\n  {{\n' + anchors + '    switch (y_pc)\n    {\n    case 0: ;\n' + body + '    }\n' + end + f'    y_dispatch_next: Y_OWNLOOP_STEP_{tag}\n  }}\n}}\n'
+            self.dispatch_labels = {}
+            return out
+        out = '{\n' + hoisted + '  int y_pc = 0;\n  for (;;)\n' + ann + '  {\n' + anchors + '    switch (y_pc)\n    {\n    case 0: ;\n' + body + '    }\n' + end + '    y_dispatch_next: ;\n  }\n}\n'
         self.dispatch_labels = {}
         return out
 
